@@ -115,6 +115,26 @@ static void sc_testany(std::vector<sg4::Host*> const& h)
   });
   h[1]->add_actor("sendA", []() { sg4::Mailbox::by_name("a")->put(new int(1), 1); });
 }
+static void sc_testany2(std::vector<sg4::Host*> const& h)
+{ // test_any over two receptions, repeated until both are done: TestAny with several ready activities
+  h[0]->add_actor("recv", []() {
+    int* d1 = nullptr;
+    int* d2 = nullptr;
+    sg4::ActivitySet set;
+    set.push(sg4::Mailbox::by_name("a")->get_async<int>(&d1));
+    set.push(sg4::Mailbox::by_name("b")->get_async<int>(&d2));
+    int done = 0;
+    for (int i = 0; i < 3 && done < 2; i++)
+      if (set.test_any())
+        done++;
+    if (done < 2)
+      set.wait_all();
+    delete d1;
+    delete d2;
+  });
+  h[1]->add_actor("sendA", []() { sg4::Mailbox::by_name("a")->put(new int(1), 1); });
+  h[2]->add_actor("sendB", []() { sg4::Mailbox::by_name("b")->put(new int(2), 1); });
+}
 static void sc_iprobe(std::vector<sg4::Host*> const& h)
 {
   h[0]->add_actor("recv", []() {
@@ -269,6 +289,8 @@ int main(int argc, char* argv[])
     sc_waitany(hosts);
   else if (sc == "testany")
     sc_testany(hosts);
+  else if (sc == "testany2")
+    sc_testany2(hosts);
   else if (sc == "iprobe")
     sc_iprobe(hosts);
   else if (sc == "actor")
